@@ -22,7 +22,7 @@ FLOORS = {'quick': {'split': 250, 'piece-lib': 4000, 'piece-defn': 4000, 'input-
                     'decompose': 80, 'bezier-piece': 200},
           'thorough': {'split': 3000, 'piece-lib': 40000, 'decompose': 800}}
 MANDATORY_TAGS = ['curve', 'surface-u', 'surface-v', 'rational', 'on-knot', 'on-knot-full', 'in-span', 'near-start', 'dir:uv',
-                  'dir:u', 'dir:v', 'span:binary', 'unnormalized', 'interior-multiplicity-p+1', 'on-jump-knot', 'caller-knot-value', 'on-near-duplicate-knot', 'decompose:unclamped']
+                  'dir:u', 'dir:v', 'span:binary', 'unnormalized', 'interior-multiplicity-p+1', 'on-jump-knot', 'caller-knot-value', 'on-near-duplicate-knot', 'decompose:unclamped', 'near-domain-end']
 TECHNIQUE = ("runtime monitoring: exact reference-model oracle on every piece returned by split_* / decompose_* under the affine "
              "re-parametrisation, plus before/after digests of the input object")
 LEVEL_TEXT = ("Each split / decomposition performed by the workload is judged piece by piece against the exact original shape and "
@@ -153,6 +153,7 @@ def is_bezier(piece):
 
 def check(case, ctx):
     from geomdl import operations, helpers
+    from geomdl.exceptions import GeomdlException
     sd = case['sd']
     rng = random.Random(case['seed'])
     pdim = sd['pdim']
@@ -246,6 +247,34 @@ def check(case, ctx):
             else:
                 ctx.fail('split/domain-end-accepted', '%s accepted a split at the domain end %r' % (fn.__name__, u))
             ctx.check(G.snapshot(o) == before, 'input-modified', 'rejected split modified its input', what='input-intact')
+    # ---- a parameter a hair inside a domain end: either taken for the end (rejected) or split there - never wrong pieces -----------
+    import math as _m
+    for d in range(pdim):
+        for end in (0, 1):
+            rng_ = doms[d][1] - doms[d][0]
+            delta = rng.choice([0.0, 1e-12, 1e-9, 3e-8, 2e-6]) * rng_
+            e_ = doms[d][end]
+            u = _m.nextafter(e_ + delta, doms[d][1]) if end == 0 else _m.nextafter(e_ - delta, doms[d][0])
+            if not doms[d][0] < u < doms[d][1]:
+                continue
+            fn = operations.split_curve if pdim == 1 else (operations.split_surface_u if d == 0 else operations.split_surface_v)
+            ctx.tag('near-domain-end')
+            try:
+                pieces = fn(o, u, **kw)
+            except GeomdlException:
+                ctx.ok('near-end-rejected')
+                ctx.check(G.snapshot(o) == before, 'input-modified', 'rejected split modified its input', what='input-intact')
+                continue
+            ctx.ok('near-end-split')
+            ctx.check(G.snapshot(o) == before, 'input-modified', '%s(%r) modified its input' % (fn.__name__, u), what='input-intact')
+            if not ctx.check(len(pieces) == 2, 'split/count', '%s returned %d pieces' % (fn.__name__, len(pieces)), what='split-count'):
+                continue
+            for k, piece in enumerate(pieces):
+                sub = list(doms)
+                sub[d] = (doms[d][0], u) if k == 0 else (u, doms[d][1])
+                if not judge_piece(ctx, rng, piece, S0, sub, tol, '%s(%r) piece %d [%.1e of the range inside the domain end]'
+                                   % (fn.__name__, u, k, abs(u - e_) / rng_), expect_degrees=degs):
+                    return
     # ---- decomposition ---------------------------------------------------------------------------------------------------------
     ints = []
     for dd, U in zip(degs, G.kvs_of(o)):
@@ -254,7 +283,6 @@ def check(case, ctx):
     uncl = bool(case.get('unclamped'))
     if uncl:
         ctx.tag('decompose:unclamped')
-    from geomdl.exceptions import GeomdlException
     try:
         if pdim == 1:
             pieces = operations.decompose_curve(o, **kw)
